@@ -24,7 +24,9 @@ def budget(tier):
 
 
 def strategy(tier):
-    return scenario(P)
+    from bvt.props._scen import mixed
+
+    return mixed(scenario(P), tier, ID, need_watch=True)
 
 
 def _lagging_forward(F):
